@@ -58,7 +58,7 @@ def main():
             "kind_free_text": "runtime monitoring harness: generators + monitors + executable reference oracles, sharded over subprocesses",
         }],
         "checks": checks,
-        "notes": "Fix commits in /repo (55, each starting with "fix:") are listed with status=fixed in known_findings.json and known_findings.d/*.json; status=known entries are the recorded, unrepaired findings.",
+        "notes": "Fix commits in /repo (55, each starting with 'fix:') are listed with status=fixed in known_findings.json and known_findings.d/*.json; status=known entries are the recorded, unrepaired findings.",
         "not_applicable": na,
     }
     with open(os.path.join(HERE, "MANIFEST.json"), "w") as f:
